@@ -36,7 +36,7 @@ def runHandlerOld : Handler → K → K
     | .done t' s => .done t' s
     | .reached r' t' => .reached r' t'
     | .err t' st r' =>
-      if hasErrs then runRoutesOld errs k (withError st r') t'
+      if hasErrs then runRoutesOld errs k (catchAt r st r') t'
       else .err t' st r'
 /-- `RouteList.Compile(next)` -/
 def runRoutesOld : List Route → K → K
@@ -63,7 +63,7 @@ def serveOld (routes : List Route) (hasErrs : Bool) (errs : List Route) (req : R
   | .reached _ t => ⟨t, none⟩
   | .err t st r' =>
     if hasErrs && !errs.isEmpty then
-      match runRoutesOld errs errorEmptyK (withError st { r' with path := req.path }) t with
+      match runRoutesOld errs errorEmptyK (serverCatch req st r') t with
       | .done t2 s2 => ⟨t2, s2⟩
       | .reached _ t2 => ⟨t2, none⟩
       | .err t2 _ _ => ⟨t2, some (writeStatus (some st))⟩
